@@ -212,6 +212,12 @@ fn run<T: E, N: ArrayLength>(kv: &KV, tracked: bool) -> String {
             let fre = if req == 1 { s.first_freed } else { 0 };
             let mut f = discipline(&s);
             if res == "ok" && ncalls != n { f.push(format!("generator-called-{}-times", ncalls)); }
+            if tracked {
+                // every value the generator handed over is dropped exactly once (C04: also when a later call panics)
+                let created = if res == "ok" { ncalls } else { ncalls.saturating_sub(1) };
+                let dropped = d.matches(',').count() + if d.contains("[]") || d.is_empty() { 0 } else { 1 };
+                if dropped != created { f.push(format!("generated-{}-dropped-{}", created, dropped)); }
+            }
             format!("res={} items=[{}] calls={} block_req={} block_free={} zero_req={}{} | orc={}", res, show_nats(items), ncalls, req, fre, s.zero_req, d, orc(f))
         }
         "try_from_vec" | "try_from_boxed_slice" | "vec_try_into" | "box_slice_try_into" => {
@@ -253,6 +259,18 @@ fn run<T: E, N: ArrayLength>(kv: &KV, tracked: bool) -> String {
             if res == "ok" && o1 && !same { f.push("documented-O(1)-conversion-did-not-keep-the-block".to_string()); }
             if (res == "ok") != want_ok { f.push("length-check".to_string()); }
             if res == "ok" && items != (1..=n as u64).map(|i| T::mk(i).eid()).collect::<Vec<_>>() { f.push("contents".to_string()); }
+            if tracked {
+                // every element of the source is dropped exactly once, whether the conversion is accepted
+                // (with the array) or rejected (with the source)
+                let got: Vec<&str> = d.trim().trim_start_matches("drops=[").trim_end_matches(']').split(',').filter(|x| !x.is_empty()).collect();
+                let ok_ids = if got.iter().all(|x| *x == "z") { got.len() == l } else {
+                    let mut want: Vec<String> = (1..=l as u64).map(|i| i.to_string()).collect();
+                    let mut have: Vec<String> = got.iter().map(|x| x.to_string()).collect();
+                    want.sort(); have.sort();
+                    want == have
+                };
+                if !ok_ids { f.push(format!("source-elements-dropped-{}-of-{}", got.len(), l)); }
+            }
             let same_s = if op.starts_with("try_from") && res == "ok" && l == cap.max(l) && cap <= l { format!(" same_block={}", same as u8) } else { String::new() };
             format!("res={} items=[{}]{}{} | orc={}", res, show_nats(items), same_s, d, orc(f))
         }
